@@ -98,6 +98,14 @@ var (
 	}}
 )
 
+func init() {
+	var fs []fld
+	for i := 0; i < 70; i++ {
+		fs = append(fs, fd(fmt.Sprintf("F%02d", i), shInt))
+	}
+	shapes["Wide"] = stc("map", fs...)
+}
+
 var shapes = map[string]*shape{
 	"Conv":     stc("map", fd("T", shCelsius), fo("OT", shCelsius), fn("NT", shCelsius), fd("G", shTag), fd("B", shBlob), fd("L", lst(shCelsius, false))),
 	"Simple":   shSimple,
